@@ -20,7 +20,15 @@ Unsolvable ==
     [n |-> 3, owner |-> <<P2, PR, PR>>, reward |-> <<1, 0, 0>>,
      tr |-> << <<Tr("a", 0, 2), Tr("b", 0, 3)>>, <<Tr("", 1, 2)>>, <<Tr("", 1, 3)>> >>, final |-> <<3>>]
 
+\* the same graph with different final sets (and different sets of states reaching them)
+TwinGraph == << <<Tr("", 1, 2), Tr("", 1, 3)>>, <<Tr("", 1, 4), Tr("", 1, 5)>>, <<Tr("", 1, 3)>>,
+                <<Tr("", 1, 4)>>, <<Tr("", 1, 5)>> >>
+TwinA == [n |-> 5, owner |-> <<PR, PR, PR, PR, PR>>, reward |-> <<1, 2, 0, 0, 0>>, tr |-> TwinGraph, final |-> <<4>>]
+TwinB == [n |-> 5, owner |-> <<PR, PR, PR, PR, PR>>, reward |-> <<1, 2, 0, 0, 0>>, tr |-> TwinGraph, final |-> <<3>>]
+
 Pool == << [kind |-> "ok",        tg |-> Tagged(Simple)],
+           [kind |-> "ok",        tg |-> Tagged(TwinA)],
+           [kind |-> "ok",        tg |-> Tagged(TwinB)],
            [kind |-> "okdead",    tg |-> Tagged(Fig55)],
            [kind |-> "okdead",    tg |-> Tagged(DeadHeavy)],
            [kind |-> "nosol",     tg |-> Tagged(Unsolvable)],
@@ -29,6 +37,10 @@ Pool == << [kind |-> "ok",        tg |-> Tagged(Simple)],
 
 NameSets == { <<"game_a", "game_b", "game_c">>, <<"g1", "x_2", "robot_40_w5">>,
               <<"b", "a", "a_b_1">> }
+
+\* input file names: underscores, digits, and stems ending in letters of ".py"
+FileStems == <<"in_", "robot_1_w2_l", "paper_games_", "x">>
+FileTails == <<"_v2", "_copy", "", "_easy", "_step_up", "p", "_7y">>
 
 Selections == UNION {{q \in [1..k -> DOMAIN Pool] : \A i, j \in 1..k : i # j => q[i] # q[j]} : k \in 1..3}
 
@@ -39,11 +51,16 @@ AllDicts == {Dict(sel, names) : sel \in Selections, names \in NameSets}
 Collision == << [name |-> "x", kind |-> "ok", tg |-> Tagged(Simple)],
                 [name |-> "x_no_prune", kind |-> "okdead", tg |-> Tagged(DeadHeavy)] >>
 
+\* always included: games that share their graph but not their goal, in both orders
+Twins == { << [name |-> "to4", kind |-> "ok", tg |-> Tagged(TwinA)], [name |-> "to3", kind |-> "ok", tg |-> Tagged(TwinB)] >>,
+           << [name |-> "to3", kind |-> "ok", tg |-> Tagged(TwinB)], [name |-> "to4", kind |-> "ok", tg |-> Tagged(TwinA)] >> }
+
 BatchCases ==
-    LET base == IF Family = "all" THEN AllDicts ELSE RandomSubset(K, AllDicts)
+    LET base == (IF Family = "all" THEN AllDicts ELSE RandomSubset(K, AllDicts)) \cup Twins
         q == SetToSeq(base)
     IN  [i \in 1..(Len(q) + 1) |->
-            IF i <= Len(q) THEN [games |-> q[i], file |-> "in_" \o ToString(i) \o "_v2"]
+            IF i <= Len(q) THEN [games |-> q[i], file |-> FileStems[1 + (i % Len(FileStems))] \o ToString(i % 7)
+                                                             \o FileTails[1 + (i % Len(FileTails))]]
             ELSE [games |-> Collision, file |-> "collision_1"]]
 
 ASSUME JsonSerialize(Out, BatchCases)
